@@ -99,6 +99,14 @@ def requests():
     R["r26"] = dict(R["r25"], precision="single")
     R["r27"] = dict(R["r25"], levels=[16, 4, 10])      # the same with several output levels in one call
     R["r28"] = dict(R["r27"], precision="single")
+    # a large multi-level output: 40 levels x 256 x 256 retained components (the padded grid of a 64 x 64 window under a wide halo), in
+    # both precisions - far above the sizes at which an implementation might switch to a leaner way of combining / transforming
+    z29, p29 = col(40, 8.0, (4.0, 1.5), ustar=0.4, mol=-80.0, closure="MOST")
+    R["r29"] = dict(srf_flx=np.zeros((64, 64)), z=z29, profiles=p29, domain=(256.0, 256.0), levels=list(range(1, 41)), modes=(256, 256), halo=384.0,
+                    precision="double", footprint=True, meas_pt=(128.0, 128.0))
+    R["r30"] = dict(R["r29"], precision="single")
+    R["r31"] = dict(R["r29"], footprint=False, srf_flx=rng.normal(size=(64, 64)), srf_bg_conc=2.0)
+    R["r32"] = dict(R["r31"], precision="single")
     # one-argument-at-a-time family: a small base request and, for every argument of the solver signature, a request that
     # differs from the base in that argument only (state memoised on any proper subset of the arguments mixes one of these pairs)
     nzv = 7
@@ -136,7 +144,7 @@ def requests():
     return R
 
 
-PAIRS = {"r1": "r0", "r3": "r2", "r9": "r8", "v_single": "v0", "r26": "r25", "r28": "r27"}  # single -> its double counterpart
+PAIRS = {"r1": "r0", "r3": "r2", "r9": "r8", "v_single": "v0", "r26": "r25", "r28": "r27", "r30": "r29", "r32": "r31"}  # single -> its double counterpart
 TWINS = {"r11": "r2", "r12": "r5", "r13": "r0", "r14": "r4", "r10": "r0", "r15": "r4", "r16": "r5", "r17": "r0", "r18": "r8", "r19": "r4", "r20": "r14", "r21": "r2"}
 VARIANTS = ["v_flxvals", "v_flxshape", "v_z", "v_u", "v_v", "v_kx", "v_ky", "v_kz", "v_domain_scaled", "v_domain_swapped", "v_levels_order",
             "v_levels_other", "v_levels_scalar", "v_modes", "v_halo", "v_halo_none", "v_measpt", "v_bg", "v_analytic", "v_footprint", "v_single"]
@@ -253,6 +261,8 @@ def run_case(case):
         pool += [str(x) for x in rng.choice([n for n in names if not n.startswith("v")], size=2, replace=False)]
     else:
         pool = [str(x) for x in rng.choice(names, size=int(rng.integers(6, 11)), replace=False)]
+    if case["idx"] % 8 == 0:
+        pool.append("r30" if case["idx"] % 16 == 0 else "r32")   # the large multi-level pair is part of every eighth history
     for s_, d_ in list(PAIRS.items()) + list(TWINS.items()):  # keep precision pairs and mode twins together
         if s_ in pool and d_ not in pool:
             pool.append(d_)
